@@ -163,6 +163,16 @@ pub fn run(tier: &str, seed: u64, em: &mut Emitter) {
         let mut v = vec![0xf0, n as u8]; v.extend(r.bytes(n)); cases.push(v.clone());
         if n > 0 { v.pop(); cases.push(v); }
     }
+    // very long programs: decoding does not stop (or stop checking) after any number of instructions
+    {
+        let noop = Covenant::from_ops(&[OpCode::Noop]).to_bytes().to_vec();
+        for n in [65_535usize, 65_536, 65_537] {
+            let mut v: Vec<u8> = Vec::with_capacity(n + 2);
+            for _ in 0..n { v.extend_from_slice(&noop); }
+            cases.push(v.clone());
+            let mut bad = v.clone(); bad.push(0xff); bad.push(0x00); cases.push(bad);     // an invalid opcode at the very end
+        }
+    }
     // every single byte followed by junk, every invalid opcode
     for b in 0..=255u8 { cases.push(vec![b, r.next() as u8, r.next() as u8, r.next() as u8, r.next() as u8]); }
     // random programs encoded, then mutated
